@@ -13,6 +13,7 @@
 From Coq Require Import List Arith Bool String ZArith.
 Import ListNotations.
 From KV Require Import Base.Num Model.Token Model.Ast Model.ExprParser Model.ErrPos Model.StmtParser.
+From KV Require Corr.C15Text.
 
 (* what Parser.Parse returned for a whole statement (kind 4), as the Go structs hold it:
    ORDER BY / GROUP BY items by Name (and direction), LIMIT as (Pos, Start, Count) *)
@@ -29,7 +30,8 @@ Inductive gostmt :=
   | GDelete (p : nat) (wpos : nat) (w : expr) (limit : option golimit).
 
 Inductive obs := OTree (e : expr) | OErr (p : option nat) | ONone
-  | OStmt (g : gostmt).     (* kind 4: the statement was accepted *)
+  | OStmt (g : gostmt)      (* kind 4: the statement was accepted *)
+  | OText (t : Corr.C15Text.tcase).   (* kind 5: text-level cases, see Corr/C15Text.v *)
 
 Record case := Case {
   ckind : nat;          (* 0 raw parse (DELETE WHERE e, nothing type-checked)
@@ -77,6 +79,7 @@ Definition twin_agrees (c : case) : bool :=
       | _ => false
       end
   | OStmt _ => false
+  | OText _ => false
   end.
 
 (* ---- 1, kind 4: the statement parser twin against Parser.Parse -------------------------- *)
@@ -248,6 +251,7 @@ Definition check_case (c : case) : nat :=
   match ckind c with
   | 3 => if prec_agrees c then 0 else 1
   | 4 => if stmt_agrees c then 0 else 1
+  | 5 => match cobs c with OText t => Corr.C15Text.check_tcase t | _ => 1 end
   | k =>
       (* spec verdicts first: they are the arbiter *)
       if (Nat.eqb k 2) && negb (flat_ok c) then 4
